@@ -49,7 +49,7 @@ def current(cfg, dim):
 
 
 def key(cfg):
-    order = ("cell", "itype", "geom", "arity", "test", "trial", "op", "factor", "wrap", "quad", "subdomain", "restr", "scalar")
+    order = ("cell", "itype", "tp", "geom", "arity", "test", "trial", "op", "factor", "wrap", "quad", "subdomain", "restr", "scalar")
     return ",".join(f"{k}={cfg[k]}" for k in order if k in cfg)
 
 
